@@ -99,7 +99,7 @@ def _nobs(ndim, which):
 
 
 def _op_block(sizes, newsizes, ndim, doms, dks, hows, offsets='all', wopts=(None,),
-              ran_dtype=None):
+              ran_dtype=None, spell=False):
     cfgs = []
     for shape in itertools.product(sizes, repeat=ndim):
         for newshp in itertools.product(newsizes, repeat=ndim):
@@ -163,6 +163,9 @@ def _op_block(sizes, newsizes, ndim, doms, dks, hows, offsets='all', wopts=(None
     if ran_dtype:
         for c in cfgs:
             c['ran_dtype'] = ran_dtype
+    if spell:
+        for c in cfgs:
+            c['spell'] = 1
     cfgs.sort(key=lambda c: (sum(c['shape']) + sum(c['newshp'])))
     return cfgs
 
@@ -229,6 +232,9 @@ def configs(tier):
                          offsets='default')
         ops += _op_block(range(1, 5), range(1, 8), 1, [d_f64], [None], ['ran_shp'],
                          ran_dtype='float32')
+        ops += _op_block(range(1, 5), range(1, 8), 1, [d_f64], [None], ['ran_shp'],
+                         offsets='default', spell=True)
+        ops += _op_block([2, 3], range(1, 5), 2, [d_f64], [None], ['range'], spell=True)
     else:
         ops += _op_block(range(1, 6), range(1, 10), 1,
                          [d_f64, d_nob, d_l, d_c, d_f32, d_w],
@@ -242,6 +248,10 @@ def configs(tier):
                          ran_dtype='float32')
         ops += _op_block([2, 3], range(1, 5), 2, [d_f64], [None], ['ran_shp'],
                          ran_dtype='float32')
+        ops += _op_block(range(1, 6), range(1, 10), 1, [d_f64, d_c], [None],
+                         ['ran_shp', 'range'], spell=True)
+        ops += _op_block([1, 2, 3], range(1, 6), 2, [d_f64], [None], ['ran_shp', 'range'],
+                         spell=True)
     cfgs += ops
     cfgs += _hist_cfgs(tier)
     for name in REJ:
@@ -430,6 +440,48 @@ def _run_arr(cfg):
                     why = R.why_inadmissible(shape, newshp, off, mode)
                 else:       # transpose of the forward map  newshp -> shape  with this offset
                     why = R.why_inadmissible(newshp, shape, off, mode)
+                if mode == 'constant' and direction == 'forward' and not on_same:
+                    # A constant that the result type cannot hold (non-integer into integer
+                    # data, complex into real data).  Property: the remainder is filled with
+                    # the constant value -- a result padded with a truncated constant is wrong.
+                    # A clean refusal (ValueError, what the code announces: "`pad_const` ...
+                    # cannot be safely cast") is the accepted outcome whenever ANY axis grows;
+                    # where no axis grows nothing is padded, the constant is unused and the
+                    # crop must be returned if anything is returned.
+                    res_dt0 = np.dtype(WIDER[dt.name]) if var['out'] == 'W' else dt
+                    bad = {'i': [1.5, 0.25], 'u': [1.5, 0.25], 'f': [1 + 2j]}.get(res_dt0.kind, [])
+                    for cb in bad:
+                        headb = ('shape=%s newshp=%s offset=%s pad_mode=constant pad_const=%s '
+                                 'direction=forward variant=%s'
+                                 % (list(shape), list(newshp), list(off), cb, var))
+                        st, val, probs = _call_resize(X[0], shape, newshp, off, mode, cb,
+                                                      direction, var, dt)
+                        evals += 1
+                        if '+' in pattern:
+                            if st == 'ok':
+                                report(site, 'non_castable_pad_const_accepted',
+                                       headb + ': %s cannot be held by %s, yet a result was '
+                                       'returned: %s' % (cb, res_dt0, _fmt(val)))
+                            elif not isinstance(val, (ValueError, TypeError)):
+                                report(site, 'raises:' + type(val).__name__,
+                                       headb + ': %r' % (val,))
+                            sigs.add('%dd:%s:badconst:refused' % (ndim, pattern))
+                        else:
+                            Mb, _ = R.matrix(shape, newshp, off, mode)
+                            expb = (X[0] @ Mb.T.astype(X.dtype)).astype(res_dt0)
+                            if st == 'exc' and isinstance(val, (ValueError, TypeError)):
+                                # whether an unused, unrepresentable constant is tolerated is
+                                # not documented (HEAD: 1.5 for int data is, 1+2j for real
+                                # data makes out.fill raise TypeError) -- not judged
+                                skipped += 1
+                            elif st == 'exc':
+                                report(site, 'raises:' + type(val).__name__,
+                                       headb + ': no axis grows, the constant is unused: %r'
+                                       % (val,))
+                            elif not _same(np.asarray(val).reshape(-1), expb):
+                                report(site, 'differs_from_reference',
+                                       headb + ' expected=%s got=%s' % (_fmt(expb), _fmt(val)))
+                            sigs.add('%dd:%s:badconst:unused' % (ndim, pattern))
                 for c in _pad_consts(dt, mode, ndim, False):
                     head = ('shape=%s newshp=%s offset=%s pad_mode=%s pad_const=%s direction=%s '
                             'variant=%s' % (list(shape), list(newshp), list(off), mode, c,
@@ -826,6 +878,14 @@ def _diag_weights(space):
     return w
 
 
+def _spelled(mode, c):
+    """Another capitalisation of the pad mode (HEAD normalises with ``str(...).lower()``)."""
+    if mode == 'constant':
+        return 'Constant' if c is None else 'CONSTANT'
+    return {'symmetric': 'Symmetric', 'periodic': 'PERIODIC', 'order0': 'Order0',
+            'order1': 'ORDER1'}[mode]
+
+
 class _InputModified(Exception):
     pass
 
@@ -876,7 +936,7 @@ def _run_op(cfg):
                 ' dtype=%s' % cfg['ran_dtype'] if cfg.get('ran_dtype') else ''))
 
     def make(mode, c):
-        kw = {'pad_mode': mode}
+        kw = {'pad_mode': _spelled(mode, c) if cfg.get('spell') else mode}
         if c is not None:
             kw['pad_const'] = c
         if how == 'ran_shp':
@@ -921,11 +981,23 @@ def _run_op(cfg):
             try:
                 op = make(mode, c)
             except Exception as e:
+                if cfg.get('spell') and isinstance(e, ValueError):
+                    # the docstring lists the lower-case names only; refusing another
+                    # capitalisation cleanly is fine (HEAD lower-cases and accepts)
+                    skipped += 1
+                    break
                 report('ResizingOperator[%s,%s]' % (how, offtxt), 'raises:' + type(e).__name__,
                        head + ': constructor: %r' % (e,))
                 evals += 1
                 break
             ran = op.range
+            if cfg.get('spell'):
+                # once a spelling is accepted the operator must be THE operator of that mode in
+                # every clause below (all judged against the lower-case ``mode``)
+                head += ' (pad_mode given as %r)' % _spelled(mode, c)
+                if str(op.pad_mode).lower() != mode:
+                    report('ResizingOperator[%s]' % mode, 'pad_mode_attribute_differs',
+                           head + ': op.pad_mode=%r' % (op.pad_mode,))
             # -------------------------------------------------------------- offset, geometry
             off = tuple(int(o) for o in op.offset)
             if not geometry_done:
@@ -1012,6 +1084,9 @@ def _run_op(cfg):
                 try:
                     GOT = _op_matrix(op, X, shape)
                     evals += len(X)
+                    if op.is_linear and np.any(GOT[1] != 0):
+                        report(vsite, 'is_linear_inconsistent', head + ': is_linear=True but '
+                               'A(0) = %s' % _fmt(GOT[1].reshape(newshp)))
                     if not _same(GOT, EXP.astype(dom.dtype)):
                         r = [i for i in range(len(X)) if not _same(GOT[i],
                                                                    EXP[i].astype(dom.dtype))][0]
